@@ -280,6 +280,21 @@ def run(ctx, out):
     traces = run_cases(rnd, out, "rnd")
     out.sample({"source": "random", "calls": rnd[0]["calls"][:3]})
     out.note("leg C2S: %d traces validated by TLC" % out.traces_validated)
+    # binding self-test: one corrupted field / one removed call must be rejected
+    import copy
+
+    base = next(t for t in traces if len(t["events"]) >= 3)
+    m1 = copy.deepcopy(base)
+    m1["id"] = "bind-total"
+    m1["events"][1]["st"]["stats"]["total"] += 1
+    m2 = copy.deepcopy(base)
+    m2["id"] = "bind-drop"
+    del m2["events"][0]
+    v = tracecheck.validate("Throughput", "TraceThroughput", "TraceThroughput.cfg", [m1, m2], name="c06bind")
+    missed = [m for m in ("bind-total", "bind-drop") if m not in v.l1 and m not in v.l2]
+    if missed:
+        raise tlc.MachineryError("binding self-test failed: corrupted traces accepted: %s" % missed)
+    out.extra["binding_selftest"] = "a trace with total_count off by one and a trace with its first call removed are rejected by TLC"
 
 
 def replay(ctx, case):
